@@ -406,6 +406,48 @@ def printer_tie(ctx):
     ctx.case(("printer-tie",))
 
 
+def semantic_ties(ctx):
+    """C19_adaptor_roundtrip observed on the real adaptor: semantic diagrams (built from the shipped object graphs and mutants of
+    them) are written by the EXTRACTED Coq writer encode_project, stored as SQLite project files and read by the real
+    vppclassdiagram.ExtractClassDiagram; inside the theorem's domain (sdiagram_ok evaluated by the extracted predicate) the objects
+    must equal the extracted specification rdiagram_of, field for field, ids included"""
+    km = ctx.km
+    for i in range(ctx.budget(24, 300)):
+        seed = ctx.rng.randint(0, 1 << 30)
+        rng = random.Random(seed)
+        cd = us.load(us.DIAGRAMS[i % 2])
+        try:
+            if i >= 2:
+                us.mutate(rng, cd, rng.randint(1, 3))
+            S, name = ub.semantic_value(rng, cd)
+        except ub.Unencodable as e:
+            ctx.count("semantic_unencodable:" + str(e).split(" ")[0])
+            continue
+        except Exception:  # noqa
+            ctx.count("semantic_mutator_failed")
+            continue
+        ok = km.call("us_ok", S) == b"1"
+        db = vs.db_of_v(km.call("us_encode", S))
+        with kj.scratch("kjv-umlsem-") as d:
+            path = ub.project_path(d)
+            vs.write_project(path, db)
+            try:
+                real, _cd2, err = ub.real_load(path, name)
+            except ub.NotAString:
+                real, err = [], "a dict where a text belongs"
+        want = [km.call("us_rdiagram", S)]
+        ctx.case(("semantic", seed, i), nontrivial=ok and bool(real))
+        ctx.count("semantic_in_domain" if ok else "semantic_outside_domain")
+        if km.call("ub_load", vs.db_v(db), name) != real:
+            ctx.tie_broken("correspondence ExtractClassDiagram vs UmlBlob.load_cdiagram on a project written by encode_project", {"seed": seed, "i": i})
+        if ok and real != want:
+            ctx.violation("a semantic class diagram in the domain of C19_adaptor_roundtrip is not read back as written: %s" % err,
+                          {"finding_key": "uml-adaptor:semantic-roundtrip", "finding_class": "uml-adaptor", "semantic_seed": seed, "semantic_i": i,
+                           "label": us.DIAGRAMS[i % 2], "mut_seed": 0, "nedits": 0})
+        elif not ok:
+            ctx.count("semantic_outside_domain_%s" % ("agrees" if real == want else "differs"))
+
+
 def separator_probe(ctx):
     """outside the domain of the adaptor theorem (C19_adaptor_name_refuted): an operation called operator< in a project file"""
     cd = us.load("TestClassDiagram")
@@ -550,6 +592,7 @@ def run(ctx):
     if ctx.km is not None:
         adaptor_ties(ctx)
         printer_tie(ctx)
+        semantic_ties(ctx)
     separator_probe(ctx)
     directed_probes(ctx)
     n = ctx.budget(60, 200)
